@@ -226,6 +226,55 @@ Lemma gen_cr_value_eq_sec : forall ty on_eq d2 mo nv (N : F) (Minv : mat), (ty =
 Proof. intros ty on_eq d2 mo nv N Minv Hnv. unfold gen_cr_value_of, cr_analytical, gen_povmt_cr, gen_cr_value, cr_var.
   destruct ty, on_eq; try reflexivity.
   f_equal. f_equal. apply mtrace_ext. apply (conjugate_ext F); [apply povmt_matS_meq; now apply Hnv|apply meq_refl]. Qed.
+
+(* ---------------- numerical one-liners, sample statistics, calc_fisher_matrix ---------------- *)
+Lemma gen_cov_mat_eq_sec : forall (n : F) (q : vec) i j, gen_cov_mat F n q i j = cov_mat F n q i j /\ gen_da_cov_mat F n q i j = cov_mat F n q i j.
+Proof. intros. split; reflexivity. Qed.
+(* data_analysis.calc_covariance_matrix_of_prob_dists: total size and, entry by entry, the direct sum of the covariance blocks *)
+Lemma gen_da_cov_total_eq_sec : forall (n : F) (pds : list (nat * vec)),
+  fst (gen_da_cov_place F n pds) = dsum_size F (map (fun p : nat * vec => (fst p, cov_mat F n (snd p))) pds) /\
+  forall i j, snd (gen_da_cov_place F n pds) i j = dsum F (map (fun p : nat * vec => (fst p, cov_mat F n (snd p))) pds) i j.
+Proof. intros n pds. unfold gen_da_cov_place.
+  match goal with |- context [fold_left ?f _ (0, np_zeros F)] => set (pstep := f) end.
+  assert (Hp : forall idx M d, pstep (idx, M) d = (idx + a_sh0 d, np_place F idx (idx + a_sh0 d) idx (idx + a_sh0 d) (a_dat d) M))
+    by (intros; reflexivity).
+  set (bs := map _ pds).
+  assert (Hb : ds_blocks F bs = map (fun p : nat * vec => (fst p, cov_mat F n (snd p))) pds).
+  { unfold bs, ds_blocks. rewrite map_map. reflexivity. }
+  destruct (ds_place_spec pstep Hp bs 0 (np_zeros F)) as [Hf Hs]; [intros; reflexivity|].
+  rewrite Hb in Hf, Hs. split; [etransitivity; [exact Hf|lia]|].
+  intros i j. etransitivity; [apply Hs|]. cbn [Nat.ltb Nat.leb andb]. rewrite !Nat.sub_0_r.
+  destruct (Nat.ltb i 0 && Nat.ltb j 0) eqn:E; [|reflexivity]. apply andb_prop in E as [E _]. apply Nat.ltb_lt in E. lia. Qed.
+Lemma lsumF_map {A} (f : A -> F) l : lsumF F (map f l) = fold_right (fun a acc => cadd F (f a) acc) (c0 F) l.
+Proof. induction l as [|a l IH]; cbn [map lsumF fold_right]; [reflexivity|]. unfold lsumF in *. cbn [fold_right]. now rewrite IH. Qed.
+(* calc_se: sum over the zipped pairs of |x - y|^2 *)
+Lemma gen_calc_se_eq_sec : forall n (xs ys : list vec), gen_calc_se F n xs ys = calc_se F n (combine xs ys).
+Proof. intros. unfold gen_calc_se, calc_se. apply lsumF_map. Qed.
+(* calc_mse_prob_dists: mean and (squared) standard deviation with ddof = 1 of the per-repetition squared errors *)
+Lemma gen_mse_prob_dists_eq_sec : forall n (xsl ysl : list (list vec)),
+  let ses := map (fun p : list vec * list vec => calc_se F n (combine (fst p) (snd p))) (combine xsl ysl) in
+  gen_mse_prob_dists F n xsl ysl = (mean F ses, var_ddof1 F ses).
+Proof. intros. unfold gen_mse_prob_dists, ses.
+  rewrite (map_ext _ (fun p : list vec * list vec => calc_se F n (combine (fst p) (snd p)))) by (intros; apply gen_calc_se_eq_sec).
+  reflexivity. Qed.
+(* data_analysis.calc_mse_qoperations (qoperation mode): point k is |stacked(x_k) - stacked(y_k)|^2 with the k-th reference *)
+Lemma gen_mse_qoperations_eq_sec : forall n (xs ys : list vec) with_std,
+  let points := map (fun xy : vec * vec => sqdist F n (fst xy) (snd xy)) (combine xs ys) in
+  gen_mse_qoperations F n xs ys with_std = (mean F points, if with_std then Some (var_ddof1 F points) else None).
+Proof. intros. reflexivity. Qed.
+Lemma gen_mse_qops_dispatch_eq_sec : forall mode : string,
+  gen_mse_qops_dispatch mode = (if String.eqb mode "qoperation" then Some true else if String.eqb mode "var" then Some false else None)
+  /\ gen_mse_qops_default_mode = "qoperation"%string /\ gen_mse_qops_default_with_std = true.
+Proof. intros. repeat split; reflexivity. Qed.
+(* matrix_util.calc_fisher_matrix: same error code (validation, then size mismatch, then eps <= 0) or entrywise the model's matrix *)
+Lemma gen_mu_fisher_eq_sec : forall eps m g (p : vec) (G : mat),
+  mres_mat_eq F (gen_mu_fisher F eps m g p G) (mu_fisher F eps m g p G).
+Proof. intros. unfold gen_mu_fisher, mu_fisher. destruct (validate F eps true (map p (seq 0 m))) as [u|c]; [|reflexivity].
+  destruct (Nat.eqb_spec m g) as [->|Hne]; cbn [negb]; [|reflexivity].
+  destruct (kleb F eps (c0 F)); [reflexivity|]. cbn [mres_mat_eq]. intros a b. rewrite Nat.min_id. unfold fisher_core.
+  apply sumn_ext; intros x Hx. now rewrite gen_replace_prob_dist_eq_sec. Qed.
+Lemma gen_fisher_default_eps_sec : gen_fisher_default_eps_num = 3022314549036573%Z /\ gen_fisher_default_eps_den = (2 ^ 78)%Z.
+Proof. split; reflexivity. Qed.
 End Equiv.
 
 (* ---- the theorems, closed (stated outside the section so that Print Assumptions reports the global context) ---- *)
@@ -301,3 +350,37 @@ Theorem gen_cr_value_eq : forall F : OF, forall ty on_eq d2 mo nv (N : F) (Minv 
   gen_cr_value_of F ty on_eq d2 mo nv N Minv = cr_analytical F ty on_eq d2 nv N Minv.
 Proof. exact gen_cr_value_eq_sec. Qed.
 Print Assumptions gen_cr_value_eq.
+Theorem gen_cov_mat_eq : forall F : OF, forall (n : F) (q : @vec F) i j,
+  gen_cov_mat F n q i j = cov_mat F n q i j /\ gen_da_cov_mat F n q i j = cov_mat F n q i j.
+Proof. exact gen_cov_mat_eq_sec. Qed.
+Print Assumptions gen_cov_mat_eq.
+Theorem gen_da_cov_total_eq : forall F : OF, forall (n : F) (pds : list (nat * @vec F)),
+  fst (gen_da_cov_place F n pds) = dsum_size F (map (fun p : nat * @vec F => (fst p, cov_mat F n (snd p))) pds) /\
+  forall i j, snd (gen_da_cov_place F n pds) i j = dsum F (map (fun p : nat * @vec F => (fst p, cov_mat F n (snd p))) pds) i j.
+Proof. exact gen_da_cov_total_eq_sec. Qed.
+Print Assumptions gen_da_cov_total_eq.
+Theorem gen_calc_se_eq : forall F : OF, forall n (xs ys : list (@vec F)), gen_calc_se F n xs ys = calc_se F n (combine xs ys).
+Proof. exact gen_calc_se_eq_sec. Qed.
+Print Assumptions gen_calc_se_eq.
+Theorem gen_mse_prob_dists_eq : forall F : OF, forall n (xsl ysl : list (list (@vec F))),
+  let ses := map (fun p : list (@vec F) * list (@vec F) => calc_se F n (combine (fst p) (snd p))) (combine xsl ysl) in
+  gen_mse_prob_dists F n xsl ysl = (mean F ses, var_ddof1 F ses).
+Proof. exact gen_mse_prob_dists_eq_sec. Qed.
+Print Assumptions gen_mse_prob_dists_eq.
+Theorem gen_mse_qoperations_eq : forall F : OF, forall n (xs ys : list (@vec F)) with_std,
+  let points := map (fun xy : @vec F * @vec F => sqdist F n (fst xy) (snd xy)) (combine xs ys) in
+  gen_mse_qoperations F n xs ys with_std = (mean F points, if with_std then Some (var_ddof1 F points) else None).
+Proof. exact gen_mse_qoperations_eq_sec. Qed.
+Print Assumptions gen_mse_qoperations_eq.
+Theorem gen_mse_qops_dispatch_eq : forall F : OF, forall mode : string,
+  gen_mse_qops_dispatch mode = (if String.eqb mode "qoperation" then Some true else if String.eqb mode "var" then Some false else None)
+  /\ gen_mse_qops_default_mode = "qoperation"%string /\ gen_mse_qops_default_with_std = true.
+Proof. intro F; exact (gen_mse_qops_dispatch_eq_sec F) || exact gen_mse_qops_dispatch_eq_sec. Qed.
+Print Assumptions gen_mse_qops_dispatch_eq.
+Theorem gen_mu_fisher_eq : forall F : OF, forall eps m g (p : @vec F) (G : @mat F),
+  mres_mat_eq F (gen_mu_fisher F eps m g p G) (mu_fisher F eps m g p G).
+Proof. exact gen_mu_fisher_eq_sec. Qed.
+Print Assumptions gen_mu_fisher_eq.
+Theorem gen_fisher_default_eps_is_1e8 : forall F : OF, gen_fisher_default_eps_num = 3022314549036573%Z /\ gen_fisher_default_eps_den = (2 ^ 78)%Z.
+Proof. intro F; exact (gen_fisher_default_eps_sec F) || exact gen_fisher_default_eps_sec. Qed.
+Print Assumptions gen_fisher_default_eps_is_1e8.
